@@ -155,6 +155,37 @@ def judgeNF (tag : String) (p : PX) (pg : PolygonalX) (rhs : Tok) : String :=
     if d.toList ≠ [md] then s!"DIFF {cls} impl={d} xf-model={md}" else s!"OK {cls}"
   | _ => s!"SPEC {cls} implementation-{" ".intercalate rhs}"
 
+/-- all coordinates of a polygonal geometry -/
+def coordsX (pg : PolygonalX) : List PX := (pg.polygons.map List.flatten).flatten
+
+/-- can a coordinate difference of this input overflow?  (spread of the x or of the y values, query point included,
+at least `2^1024`) -/
+def ovfSpread (p : PX) (pg : PolygonalX) : Bool :=
+  let ps := p :: coordsX pg
+  let xs := ps.map (·.x.toRat)
+  let ys := ps.map (·.y.toRat)
+  let spread (l : List Rat) : Rat := l.foldl max (l.headD 0) - l.foldl min (l.headD 0)
+  decide ((2 : Rat)^1024 ≤ spread xs) || decide ((2 : Rat)^1024 ≤ spread ys)
+
+/-- overflow lines (`pt ovf-…`): finite coordinates `k·2^(1024-b)`, `|k| < 2^b` — exactly representable, all differences
+are multiples of the same power of two and either exact or (`≥ 2^1024`) overflow to `±Inf`.  SPEC: the implementation
+against the Spec on the exact values (these ARE floating-point polygons, the query points are grid points: on an edge
+or at least `2^(1024-b)/√2·…` away); the answer of the source rendered with overflowing `-` and `/` (`GenOL`, fourth
+pass) is reported next to it, DIFF if the implementation departs from that rendering where the Spec holds. -/
+def judgeOvf (tag : String) (p : PX) (pg : PolygonalX) (pr : P) (pgr : Polygonal) (rhs : Tok) : String :=
+  let cls := s!"pt-{tag}-{if ovfSpread p pg then "big" else "small"}-{shapeX pg}"
+  match stability cls rhs with
+  | some v => v
+  | none =>
+  match rhs with
+  | [d] =>
+    let md := modelDigit (GenOL.pointInPolygonal GenO.pointOnSegment GenO.rayIntersectsSegment p pg)
+    let sp := specDigit (Spec.withinSpec pr (specPolys pgr))
+    if d.toList ≠ [sp] then s!"SPEC {cls} impl={d} spec={sp} ovf-model={md}"
+    else if d.toList ≠ [md] then s!"DIFF {cls} impl={d} ovf-model={md}"
+    else s!"OK {cls}"
+  | _ => s!"SPEC {cls} implementation-{" ".intercalate rhs}"
+
 def verts : BGeom → Option (String × List (Pt UInt64))
   | .multiPoint ps => some ("multipoint", ps)
   | .lineString ps => some ("linestring", ps)
@@ -288,6 +319,10 @@ def judgeLine (line : String) : String :=
         match polygonalXOf g with
         | some pg => judgeNF tag (ptX ⟨x, y⟩) pg rhs
         | none => "BAD parse"
+      else if tag.startsWith "ovf-" then
+        match polygonalXOf g, ptRat ⟨x, y⟩, polygonalOf g with
+        | some pg, some pr, some pgr => judgeOvf tag (ptX ⟨x, y⟩) pg pr pgr rhs
+        | _, _, _ => "BAD parse"
       else
       match ptRat ⟨x, y⟩, polygonalOf g with
       | some p, some pg => judgePt tag p pg rhs
